@@ -112,7 +112,20 @@ def run_oracle(case):
         if op[0] == 'rmvar' and 0 <= op[1] < len(im.objs) and im.live[op[1]]:
             removed = im.objs[op[1]]
             rid, ident = removed.cmeta_id, removed.rdf_identity
+        before = list(im.model.rdf)
         r = im.step(op)
+        # frame rule for annotations: no operation deletes an annotation, except remove_variable those of the variable
+        # removed (its subject); transfer_cmeta_id moves them to the new subject; only 'triple' adds one
+        now = list(im.model.rdf)
+        gone = [t for t in before if t not in now]
+        if op[0] == 'rmvar' and removed is not None and r[0] == 'ok':
+            gone = [t for t in gone if t[0] != ident]
+        if op[0] == 'transfer':
+            po = sorted((str(t[1]), str(t[2])) for t in before)
+            gone = [] if po == sorted((str(t[1]), str(t[2])) for t in now) else gone
+        if gone:
+            bad.append(('%s deleted annotation(s) that do not belong to a removed variable: %s'
+                        % (op, [tuple(str(x) for x in t) for t in gone[:3]]), {'op_index': j}))
         if removed is not None and r[0] == 'ok' and rid is not None:
             if list(im.model.rdf.triples((ident, None, None))):
                 bad.append(('annotations of removed variable %s are still in the RDF graph' % removed.name, {'op_index': j}))
